@@ -130,6 +130,35 @@ fn run(rng: &mut Rng, idx: u64, tier: Tier) -> CaseOut {
         }
         batch.extend(extra);
         rng.shuffle(&mut batch);
+    } else if fopts.max_quant_depth >= 2 && rng.chance(1, 4) {
+        // a two-variable sub-formula that occurs with the roles of its variables swapped (within one formula
+        // or in two formulae of the batch)
+        let mut gopts = fopts.clone();
+        gopts.max_quant_depth = 0;
+        gopts.hybrids = true;
+        gopts.max_size = 6;
+        gopts.domain_pct = 0;
+        gopts.dup_pct = 0;
+        let scope = ["x".to_string(), "y".to_string()];
+        let mut g = gen_open_formula(rng, &gopts, &net.names, &scope);
+        if g.free_vars().len() < 2 {
+            g = F::Hyb(Hyb::Jump, "x".to_string(), None, Box::new(un(*rng.pick(&[Un::EX, Un::AX, Un::EF, Un::AG]), un(Un::Not, var("y")))));
+        }
+        let swapped = g.rename_vars(&|v| match v {
+            "x" => "y".to_string(),
+            "y" => "x".to_string(),
+            other => other.to_string(),
+        });
+        let wrap = |body: F, rng: &mut Rng| F::Hyb(*rng.pick(&[Hyb::Exists, Hyb::Bind, Hyb::Forall]), "x".to_string(), None, Box::new(F::Hyb(*rng.pick(&[Hyb::Exists, Hyb::Forall]), "y".to_string(), None, Box::new(body))));
+        if rng.coin() {
+            batch.push(wrap(bin(*rng.pick(&[Bin::And, Bin::Or, Bin::Imp]), g, swapped), rng));
+        } else {
+            let p1 = F::Prop(rng.pick(&net.names).clone());
+            let p2 = F::Prop(rng.pick(&net.names).clone());
+            batch.push(wrap(bin(Bin::And, g, un(Un::EF, p1)), rng));
+            batch.push(wrap(bin(Bin::Or, swapped, p2), rng));
+        }
+        rng.shuffle(&mut batch);
     }
     // literal repetition of a formula inside the batch
     if batch.len() >= 2 && rng.chance(1, 4) {
